@@ -123,9 +123,16 @@ impl<'de> JsonInput<'de> for &'de Bytes {
     }
 
     fn to_json_slice(&self) -> JsonSlice<'de> {
-        let bytes = self.as_ref();
+        let bytes: &'de [u8] = (*self).as_ref();
         let newed = self.slice_ref(bytes);
-        JsonSlice::FastStr(unsafe { FastStr::from_bytes_unchecked(newed) })
+        let f = unsafe { FastStr::from_bytes_unchecked(newed) };
+        // a short `FastStr` stores a copy of the text inline: whatever is borrowed from it
+        // (`&'de str`, keys of the lazy iterators) would die with the reader that holds the
+        // copy, so borrow from the caller's buffer, which does live for `'de`
+        if f.as_ptr() != bytes.as_ptr() {
+            return JsonSlice::Raw(bytes);
+        }
+        JsonSlice::FastStr(f)
     }
 
     fn from_subset(&self, sub: &'de [u8]) -> JsonSlice<'de> {
@@ -143,7 +150,12 @@ impl<'de> JsonInput<'de> for &'de FastStr {
     }
 
     fn to_json_slice(&self) -> JsonSlice<'de> {
-        JsonSlice::FastStr((**self).clone())
+        let f = (**self).clone();
+        // the clone of an inline `FastStr` is a copy; see `&Bytes` above
+        if f.as_ptr() != self.as_ptr() {
+            return JsonSlice::Raw((*self).as_bytes());
+        }
+        JsonSlice::FastStr(f)
     }
 
     fn from_subset(&self, sub: &'de [u8]) -> JsonSlice<'de> {
